@@ -383,7 +383,7 @@ def run(ctx):
                 txt = open(os.path.join(CORPUS, f)).read()
                 m = re.search(r"^# expect: (\S+)", txt, re.M)
                 scripts.append(("corpus/" + f, txt, m.group(1) if m else "ok"))
-        n = 900 if ctx.tier == "quick" else 12000
+        n = 2000 if ctx.tier == "quick" else 40000
         for k in range(n):
             r = ctx.rng.random()
             if r < 0.80: scripts.append(("gen", gen_scenario(ctx.rng, base_guards), None))
@@ -444,7 +444,13 @@ def run(ctx):
     }
 
 
-PARTIAL = []
+PARTIAL = [
+    "no_uaf (a client record is dereferenced only while allocated; free only with refCount = 0 after unlinking) is stated at full strength in Props/C13.lean as a comment; proved so far: exact mutex ownership per program counter, lock order, no lock cycle, waiters hold nothing. The refcount/lifecycle invariants are not proved in Lean yet: use-after-free and double free are covered by the ASan oracle on every explored schedule only",
+    "gone_once is covered by the hook-count oracle on every explored schedule, not proved in Lean",
+    "full deadlock freedom (a reachable state in which no thread can step has only terminated threads) is not proved: proved is the absence of cycles among mutex waits plus `waiters_hold_nothing`; a lost wake-up would not be excluded by the Lean part (it is searched for by the scheduler: watchdog)",
+    "shutdown_terminates / threads_reclaimed: not proved in Lean; the join structure (app joins listener and input threads, input joins output) is part of the model and checked by trace inclusion; unjoined client threads are a known finding",
+    "the theorems are about the model's schedules; the real code is tied by the T0 skeleton and by trace inclusion over the sampled schedules only (deterministic scheduler preempts at synchronisation/IO calls, not between plain loads and stores)",
+]
 ASSUMPTIONS = [
     "application thread calls rfbShutdownServer then rfbScreenCleanup itself (not from a client callback)",
     "no TLS / WebSocket / file transfer / UDP / HTTP in the threaded workload",
